@@ -534,6 +534,7 @@ def assembly_rule(ctx, p, K):
 def run(ctx):
     p = ctx.p
     K = KEval(p)
+    K.none_defaults_const = False   # cls_list_from(cls_filtered=None) and friends are analysed for both cases
     ctx.rule("C04.wtilde-data", "w_tilde_data[ip] = sum over the kernel of kernel[ky,kx] * image/noise^2 at ip + k - floor(K/2), each axis shifted by its own half-width (E4 + axis purity)")
     ctx.rule("C04.wtilde-value", "overlap value = sum kernel[k0] kernel[k0 + (ip0-ip1)] / noise^2 at ip0 + k0 - floor(K/2); bounds of the second index per axis; axis-pure no-overlap shortcut")
     ctx.rule("C04.preload", "sparse overlap table: upper triangle, every non-zero overlap kept (zero-test only), diagonal halved iff the consumer adds the transpose, slot/length counters")
